@@ -889,7 +889,8 @@ func replay(c *mcx.Ctx, raw json.RawMessage) (string, string) {
 func init() {
 	mcx.Register(&mcx.Driver{
 		ID: "C12", Run: run, Replay: replay,
-		Rule: "(a) round trip of five catalogue metadata (full / empty / special-character link, full / empty layout) x {legacy, DSSE} x both loaders x 0-2 signatures, and of every ordered pair (dump X, then dump Y to the same path, load); " +
+		Rule: "also: the deprecated loader filling a value that held another signed element; every loaded value dumped and loaded a second time; " +
+			"(a) round trip of five catalogue metadata (full / empty / special-character link, full / empty layout) x {legacy, DSSE} x both loaders x 0-2 signatures, and of every ordered pair (dump X, then dump Y to the same path, load); " +
 			"(b) every single-point structural corruption of the dumped full link and full layout (thorough: also the empty ones), found by walking document and an independently spelled schema in parallel - each member at every nesting level of wrapper, signature entries and payload dropped / renamed / nulled / retyped to every other JSON type, unknown member added to every object, map entries and array elements retyped, five type-marker variants, payload-type variants, payload not base64 / not JSON / not an object, truncation after every structural character - through both loaders; " +
 			"(c) ValidateMetablock on the valid catalogue and on each single violation of a format rule at each position (type markers, 8 expiry forms, names empty/duplicate/shared, malformed rules in the four rule lists, key-id / digest / signature hex, private part, key type / scheme / hash-algorithm, map key vs key id, for keys, rootcas and intermediatecas). " +
 			"Distinct by construction; non-trivial = the statement decides the case (nested missing members, null for non-required members, unknown members of wrapper and signature entries, data keys of free-form maps are don't-care). states = cases.",
